@@ -8,6 +8,7 @@ import (
 )
 
 // MaxConns 返回一个并发控制中间件。
+// 同一个返回值包装的所有处理器共用 n 个名额。
 func MaxConns(n int) func(http.Handler) http.Handler {
 	if n <= 0 {
 		return func(next http.Handler) http.Handler {
@@ -15,9 +16,9 @@ func MaxConns(n int) func(http.Handler) http.Handler {
 		}
 	}
 
-	return func(next http.Handler) http.Handler {
-		latch := syncx.NewLimit(n)
+	latch := syncx.NewLimit(n)
 
+	return func(next http.Handler) http.Handler {
 		return http.HandlerFunc(func(w http.ResponseWriter, r *http.Request) {
 			if latch.TryBorrow() {
 				defer func() {
